@@ -145,6 +145,12 @@ func runC02(c *fw.Ctx) {
 		hists = append(hists, c02hist{"interior-early", ops2})
 	}
 
+	// the root is a function of content alone: not of the package's debug-logging switch either
+	if c.Idx%8 == 5 {
+		util.DebugMPTNode = true
+		defer func() { util.DebugMPTNode = false }()
+		c.Count("cases_with_debug_switch_on", 1)
+	}
 	var st model.CanonStats
 	want := model.CanonRootStats(version, target, &st)
 	c.Describe(map[string]any{"version": version, "content": lab.FmtContent(target), "histories": len(hists)})
@@ -254,7 +260,7 @@ func init() {
 		Level: "exploration",
 		Rule: "each case draws a version and a content S (by a random insert/delete history over structure-seeking paths) and then replays five more histories that end in S at that version: shuffled inserts; inserts mixed with related extra paths that are deleted afterwards; " +
 			"overwrite chains with delete-then-reinsert; interior paths late; interior paths early. After every operation of every history the root must equal an independent canonical-trie hasher applied to the model content; all final roots must be identical; " +
-			"the stored encodings reachable from the root are parsed by the harness' own decoder and must reproduce S (raw bytes from the persistent store for a third of the histories); a per-worker root->content table checks injectivity. " +
+			"the stored encodings reachable from the root are parsed by the harness' own decoder and must reproduce S (raw bytes from the persistent store for a third of the histories); a per-worker root->content table checks injectivity; every 8th case runs with the package's debug switch (DebugMPTNode) on. " +
 			"non-trivial = content with >=2 entries whose canonical trie has at least one branch; distinct by (version, content)",
 		Cases: func(tier string) int {
 			if tier == "thorough" {
@@ -264,7 +270,7 @@ func init() {
 		},
 		Run: runC02,
 		Floors: map[string]int64{"histories": 30000, "root_comparisons": 300000, "canon_extensions": 1000, "canon_branch_values": 1000, "nodes_read_back": 100000,
-			"history:extras-then-deleted": 1000, "history:overwrite-and-reinsert": 1000, "distinct:contents": 3000},
+			"history:extras-then-deleted": 1000, "history:overwrite-and-reinsert": 1000, "distinct:contents": 3000, "cases_with_debug_switch_on": 1000},
 		Assumptions: []string{
 			"published format as read from the code at the pinned commit: sha3-256(LE64(origin) ‖ body) with ':'-separated bodies; the reference hasher shares no code with /repo",
 			"fixed version per case: every node's origin equals the trie version",
